@@ -26,7 +26,7 @@ RULE = (
     "structure, different values; leaves as python floats / NumPy scalars / JAX arrays), 2 batches of initial "
     "states, 2 seeds and a generated sequence of 4-14 operations from {solve(p), simulate(p, init, seed, "
     "vf_arr_list=solve(p)), solve_and_simulate(p, init, seed), rebuild (call get_lcm_function again and switch to "
-    "the new objects), poison (overwrite the user's params object that was passed to the previous call), reuse_dict (overwrite ONE long-lived params dict in place with another variant's values and pass the same object again)}. Model: a "
+    "the new objects), poison (overwrite the user's params object that was passed to the previous call), twin (build, solve and simulate ANOTHER model with the same names/signatures but other table contents in between), reuse_dict (overwrite ONE long-lived params dict in place with another variant's values and pass the same object again)}. Model: a "
     "memo keyed by the VALUES of the arguments holding the first result; after every operation the result must "
     "equal the memo entry (floats 1e-12, discrete exact, identical leaf values for the three leaf types), the user's "
     "Model (functions dict, signatures, grids) and the params object passed in must be unchanged (deep structural "
@@ -40,7 +40,7 @@ TECHNIQUE = "model-based property-based testing of call histories: generated ope
 LEVEL_TEXT = "Exploration over generated call histories (interleaved parameter sets, rebuilds, leaf types) and hash seeds."
 WORKERS = 16
 
-PROFILE = Profile(name="pure", max_periods=3, p_filter=0.5, max_points=8_000, max_cont_state_nodes=4,
+PROFILE = Profile(name="pure", max_periods=3, p_filter=0.7, min_RC=1, max_points=8_000, max_cont_state_nodes=4,
                   max_cont_choice_nodes=4, p_stoch=0.4, every_function_has_params=True)
 
 
@@ -64,10 +64,11 @@ def cases(draw):
         ops = [{"op": "solve", "p": 0, "a": 0, "s": 0}, {"op": "solve", "p": 1, "a": 0, "s": 0},
                {"op": "rebuild", "p": 0, "a": 0, "s": 0}, {"op": "solve", "p": 0, "a": 0, "s": 0}]
     for _ in range(draw(st.integers(4, 12))):
-        kind = draw(st.sampled_from(["solve", "solve", "simulate", "sas", "sas", "rebuild", "poison", "leafswap", "reuse_dict", "reuse_dict"]))
+        kind = draw(st.sampled_from(["solve", "solve", "simulate", "sas", "sas", "rebuild", "poison", "leafswap", "reuse_dict", "reuse_dict", "twin", "twin"]))
         ops.append({"op": kind, "p": draw(st.integers(0, nvar - 1)), "a": draw(st.integers(0, 1)), "s": draw(st.integers(0, 1))})
     return {"spec": spec.to_json(), "variants": variants, "agents": [draw(raw_agents(1, 4)), draw(raw_agents(2, 5))],
             "seeds": [draw(st.integers(0, 2**31 - 1)), draw(st.integers(0, 2**31 - 1))], "ops": ops,
+            "twin_first": draw(st.integers(0, 2)) == 0,
             "subprocess": two_cont or draw(st.integers(0, 3)) == 0,
             "hashseeds": [draw(st.sampled_from([1, 2, 12345, 4294967295])), draw(st.integers(3, 10**6)),
                           draw(st.integers(3, 10**6))]}
@@ -163,9 +164,20 @@ def check(case):
         for tgt in ("solve", "simulate", "solve_and_simulate"):
             fns[tgt], _ = call_lcm(get_lcm_function, model, targets=tgt, debug_mode=False)
 
-    build()
     specs = [variant_spec(base_spec, v) for v in case["variants"]]
     inits = [materialise_agents(base_spec, ref, a) for a in case["agents"]]
+    if case.get("twin_first"):
+        # a twin model (same names/signatures, other table contents) is the FIRST model that is
+        # built, solved and simulated in this process: caches keyed by names would be seeded by it
+        from ..ir import twin as make_twin
+
+        tw = make_twin(base_spec)
+        try:
+            ftw = simcheck.get_functions(tw, targets=("solve_and_simulate",))
+            simcheck.simulate(ftw, tw, inits[0], case["seeds"][0])
+        except Exception:  # noqa: BLE001  (only a disturbance)
+            pass
+    build()
     memo = {}
     msgs = []
     cnt = {"ops": 0, "memo_hits": 0, "rebuilds": 0, "subprocess_comparisons": 0}
@@ -188,6 +200,21 @@ def check(case):
                     if isinstance(d, dict) and k != "shocks":
                         for kk in d:
                             d[kk] = -123.0
+            continue
+        if kind == "twin":
+            # interlude: ANOTHER model with the same names and signatures but other table contents
+            # and parameter values is built, solved and simulated in the same process; it must not
+            # influence later calls of the functions under test
+            from ..ir import twin as make_twin
+
+            tw = make_twin(base_spec)
+            try:
+                ftw = simcheck.get_functions(tw, targets=("solve_and_simulate",))
+                simcheck.simulate(ftw, tw, inits[op["a"]], case["seeds"][op["s"]])
+                cnt["twin_interludes"] = cnt.get("twin_interludes", 0) + 1
+                history.append("T")
+            except Exception:  # noqa: BLE001  (the twin may be unsupported; it is only a disturbance)
+                pass
             continue
         if kind == "leafswap":
             leaves[op["p"]] = {"float": "numpy", "numpy": "jax", "jax": "float"}[leaves[op["p"]]]
@@ -277,7 +304,8 @@ def check(case):
                     msgs.append(f"history {' '.join(history)}: a params dict that was overwritten in place and passed again gives a different result than a fresh dict with the same values ({d})")
                     break
             memo[key] = rr
-    if not msgs and case["subprocess"]:
+    # after a twin-first disturbance the fresh process is the undisturbed ground truth
+    if not msgs and (case["subprocess"] or case.get("twin_first")):
         v0 = dict(case["variants"][0])
         v0["leaf"] = "float"
         params = to_lcm_params(specs[0], leaf="float")
@@ -285,7 +313,7 @@ def check(case):
         init = {k: jnp.asarray(v) for k, v in inits[0].items()}
         df = call_lcm(fns["solve_and_simulate"], params, initial_states=init, seed=case["seeds"][0])
         here = {**result_repr(sol), **result_repr(df)}
-        for hs in case["hashseeds"]:
+        for hs in (case["hashseeds"] if case["subprocess"] else case["hashseeds"][:1]):
             with tempfile.TemporaryDirectory(prefix="lcm-verif-c09-") as td:
                 job = {"spec": case["spec"], "variant": v0, "agents": case["agents"][0], "seed": case["seeds"][0]}
                 with open(os.path.join(td, "job.json"), "w") as f:
@@ -299,11 +327,12 @@ def check(case):
             cnt["subprocess_comparisons"] += 1
             d = same_result(here, other)
             if d:
-                msgs.append(f"fresh process with PYTHONHASHSEED={hs} gives a different result ({d})")
+                msgs.append(f"fresh process with PYTHONHASHSEED={hs} gives a different result ({d})"
+                            + (" [a twin model with the same names was built and simulated first in this process]" if case.get("twin_first") else ""))
                 break
     hist = "".join(history)
     interleaved = False
-    seq = [h[1:] for h in history if h != "R" and not h.startswith("U")]
+    seq = [h[1:] for h in history if h not in ("R", "T") and not h.startswith("U")]
     for i in range(len(seq)):
         for j in range(i + 1, len(seq)):
             for k in range(j + 1, len(seq)):
